@@ -614,6 +614,8 @@ class Builder:
         """bit-flag enum: single bits at `positions`, optional zero, composites of declared bits"""
         rng = self.rng
         specs, feats = [], {"bitflags"}
+        if ncomp >= 6:
+            feats.add("bit-many-constants")
         names = {}
         contiguous = positions == list(range(len(positions)))
         if contiguous and rng.random() < 0.7:
@@ -647,8 +649,8 @@ class Builder:
         if zero:
             feats.add("bit-zero")
         comps = set()
-        for _ in range(ncomp):
-            if len(positions) < 2:
+        for _ in range(ncomp * 4):
+            if len(positions) < 2 or len(comps) >= ncomp:
                 break
             sub = rng.sample(positions, rng.randint(2, min(len(positions), 4)))
             val = sum(1 << q for q in sub)
@@ -705,12 +707,15 @@ def gen_bit_type(b, T, rng, max_hb):
     top = min(w - (2 if s else 1), max_hb)          # highest usable bit position
     for _ in range(40):
         k = rng.randint(1, min(8, top + 1))
+        large = rng.random() < 0.15          # many constants (>= 13 when the kind is wide enough)
+        if large:
+            k = min(8, top + 1)
         if rng.random() < 0.65:
             positions = list(range(k))
         else:
             positions = sorted(rng.sample(range(top + 1), k))
-        zero = rng.random() < 0.5
-        ncomp = rng.choice([0, 0, 1, 1, 2, 3])
+        zero = large or rng.random() < 0.5
+        ncomp = 6 if large else rng.choice([0, 0, 1, 1, 2, 3])
         snap = (set(b.names.used), {kk: set(v) for kk, v in b.names.trimmed.items()})
         try:
             specs, f = b.blk_bits(T, positions, zero, ncomp)
@@ -738,7 +743,7 @@ def pick_flags(rng, profile, bit):
     return fl
 
 
-def gen_enum_pkg(rng, name, profile="c04", max_hb=6, allow_gorm=True):
+def gen_enum_pkg(rng, name, profile="c04", max_hb=7, allow_gorm=True):
     """one package spec.  profile: 'c04' (tables; no -bit), 'c12' (codec flags), 'c14' (bit-flag enums, -bit)"""
     for _attempt in range(50):
         try:
